@@ -3,7 +3,7 @@ from pyvc.contracts import contract
 
 # assumed: the neighbour search (sklearn tree + kind selection) returns, per destination point, k in-range indices of source
 # elements (its correctness against brute force is the bounded part of C11 / C12)
-contract("uxarray.remap.utils._remap_grid_parse", trusted=True, props=["C12"],
+contract("uxarray.remap.utils._remap_grid_parse", variant="caller_view", trusted=True, props=["C12"],
          params={"source_data": "opaque", "source_grid": "opaque", "destination_grid": "opaque", "coord_type": "opaque",
                  "remap_to": "opaque", "k": "int", "query": "bool"},
          returns="tuple(opaque, opaque, arr(int, n_dest))",
@@ -22,4 +22,36 @@ for _rank, _shape, _post in ((1, "n_src", "forall(0, n_dest, lambda d: exists(0,
                  # every destination value is the value of ONE source element, for the same leading index (no invented values)
                  _post,
                  "shape(result)[-1] == n_dest"],
+             options={"callee_variants": {"uxarray.remap.utils._remap_grid_parse": "caller_view"}},
              raises=[("Exception", "False", "only_if")])
+
+
+# ---- _remap_grid_parse itself (dataflow, abstract mode): which coordinates of WHICH grid are searched, and with a tree that is
+# rebuilt for this call (the source grid's coordinates may have been replaced since a tree was cached) ---------------------------------
+_G = "uxarray.grid.grid.Grid."
+_ACC = [_G + p for p in ("node_lon", "node_lat", "face_lon", "face_lat", "edge_lon", "edge_lat", "node_x", "node_y", "node_z",
+                         "face_x", "face_y", "face_z", "edge_x", "edge_y", "edge_z", "n_node", "n_face", "n_edge")]
+_KIND = {"nodes": "node", "face centers": "face", "edge centers": "edge"}
+_N = "getitem(attr(source_data, 'shape'), -1)"
+_IS = {k: f"same({_N}, summary('{_G}n_{v}', source_grid))" for k, v in _KIND.items()}
+# python evaluates the element-count tests in this order; when counts coincide the first match decides
+_SEL = {"nodes": _IS["nodes"], "face centers": f"(not {_IS['nodes']} and {_IS['face centers']})",
+        "edge centers": f"(not {_IS['nodes']} and not {_IS['face centers']} and {_IS['edge centers']})"}
+for _ct in ("spherical", "cartesian"):
+    for _rt, _kd in _KIND.items():
+        _cs = [f"attr(summary('{_G}{_kd}_{c}', destination_grid), 'values')" for c in (("lon", "lat") if _ct == "spherical" else ("x", "y", "z"))]
+        _dest = f"attr(lib('numpy.vstack', [{', '.join(_cs)}]), 'T')"
+        _ta = ("'spherical', 'haversine', True" if _ct == "spherical" else "'cartesian', 'minkowski', True")
+        _ens = ["is_tuple(result)",
+                # destination points: the requested element kind of the DESTINATION grid, in the requested coordinate system
+                f"same(item(result, 0), {_dest})"]
+        for _m, _c in _SEL.items():
+            # neighbours: query of a tree over the SOURCE grid's elements of the kind the data live on, rebuilt for this call
+            _q = f"meth('query', summary('{_G}get_ball_tree', source_grid, '{_m}', {_ta}), {_dest}, k=k)"
+            _ens.append(f"implies({_c}, same(item(result, 1), item({_q}, 0)))")
+        contract("uxarray.remap.utils._remap_grid_parse", props=["C12"], variant=f"{_ct},{_rt}",
+                 params={"source_data": "opaque", "source_grid": "obj('Grid')", "destination_grid": "obj('Grid')", "coord_type": repr(_ct),
+                         "remap_to": repr(_rt), "k": "opaque", "query": "True"},
+                 returns="opaque", ensures=_ens,
+                 options={"abstract": True, "summaries": _ACC + [_G + "get_ball_tree"]},
+                 raises=[("ValueError", f"not ({_IS['nodes']} or {_IS['face centers']} or {_IS['edge centers']})", "iff")])
